@@ -169,6 +169,10 @@ def derive(rnd, rules, e, depth=6, out=None, marks=None):
     rmap = dict(rules) if not isinstance(rules, dict) else rules
     if out is None:
         out = []
+    if len(out) >= 48:
+        # keep sentences short: nesting depth of a parse grows with the input, and the checks run under a
+        # recursion limit of 1500 so that unbounded recursion is observable
+        return out
     k = e[0]
     if k == 'cut':
         if marks is not None:
